@@ -349,8 +349,10 @@ def cond_programs(draw):
         for _ in range(draw(st.integers(1, 3))):
             tag += 1
             body.append(['log', tag])
-            if draw(st.integers(0, 2)) == 0:
-                body.append(['wait', draw(st.sampled_from([0, 0.25, 1]))])
+            if draw(st.integers(0, 2)) != 0:
+                # (a waiter sleeping here is where a second, spurious
+                # resumption by a later signal would show)
+                body.append(['wait', draw(st.sampled_from([0, 0.25, 1, 2]))])
             kind = draw(st.sampled_from(['cwait', 'cwait', 'fwait']))
             body.append([kind, ks[i] if draw(st.integers(0, 3)) else
                          draw(st.integers(0, 1))])
